@@ -7,7 +7,8 @@ RULE = ("S-syn listings x rules nesting $or/$and/$and_any_order to depth 3 at in
         "lengths, decoy alternatives taken from other instructions, any-order children shuffled; one-step mutants "
         "(drop/duplicate a child, drop an alternative, swap siblings); a nesting stratum puts an operator directly inside the same or "
         "another operator (instruction and operand level) on listings that contain every order of the three elements. Oracle: R-dsl differential on found / leftmost "
-        "start / hit windows. Non-trivial = model finds the rule or one mutation from a found case; distinct = (rule, listing).")
+        "start / hit windows. Non-trivial = model finds the rule or one mutation from a found case; distinct = (rule, listing). "
+        "Repeated-group cells (each repetition takes another ordering / alternative) and mapping-spelling cells (operator children written as one mapping vs as a list).")
 FLOOR = {"quick": 300, "thorough": 4000}
 ANCHOR_HINTS = ["node_branch_root", "ast_builder", "pattern_node_builder", "deref_classes"]
 REQUIRED_EVENTS = ["hits_located", "law_cases_compared", "wide_any_order_cells", "shared_list_cells", "capture_alternative_probes"]
